@@ -427,6 +427,53 @@ fn duplicates(t: Tier) -> BoxedStrategy<Case> {
         .boxed()
 }
 
+/// Long originals (60..400 tokens, mostly one per line, lines skipped) against sparse
+/// adjustments that resume far behind the previous stretch; and wide ones (columns up to
+/// ~130000).
+fn long_and_wide(_t: Tier) -> BoxedStrategy<Case> {
+    (
+        60usize..400,
+        // adjustment tokens: original line = running sum of gaps (small, or around the powers of
+        // two and their neighbours), so that a stretch resumes dozens of original stretches later
+        vec(
+            (
+                prop_oneof![3 => 0u32..6, 3 => (4u32..9, -2i64..3).prop_map(|(k, d)| ((1i64 << k) + d) as u32), 1 => 0u32..200],
+                0u32..4,
+                0u32..500,
+                0u32..140,
+            ),
+            1..7,
+        )
+        .prop_map(|v| {
+            let mut line = 0u32;
+            v.into_iter()
+                .map(|(gap, sc, dl, dc)| {
+                    line += gap;
+                    (line, sc, dl, dc)
+                })
+                .collect::<Vec<_>>()
+        }),
+        proptest::sample::select(vec![1u32, 1, 3, 1000]),
+        any::<bool>(),
+        prop_oneof![Just(Route::Raw), Just(Route::Builder), Just(Route::Doc)],
+    )
+        .prop_map(|(n, adj, scale, skip_lines, route)| {
+            let orig: Vec<OTok> = (0..n)
+                .map(|i| {
+                    let line = if skip_lines { (i as u32) + (i as u32 / 10) } else { i as u32 / 2 };
+                    OTok { pos: (line, ((i as u32 * 7) % 130) * scale), payload: (i % 11) as u8 + 1 }
+                })
+                .collect();
+            let orig = distinct_by(orig, |o| o.pos);
+            let adj: Vec<ATok> = distinct_by(
+                adj.into_iter().map(|(sl, sc, dl, dc)| ATok { src: (sl, sc * scale), dst: (dl, dc * scale) }).collect(),
+                |a| a.src,
+            );
+            Case { orig, adj, route }
+        })
+        .boxed()
+}
+
 fn subs() -> Vec<Sub> {
     let ex = enum_sub("exhaustive_grid", exhaustive, check);
     let run = ex.run;
@@ -441,6 +488,7 @@ fn subs() -> Vec<Sub> {
             ..ex
         },
         gen_sub("random", random, |t| t.pick(30_000, 1_000_000), check),
+        gen_sub("long_and_wide", long_and_wide, |t| t.pick(1_500, 40_000), check),
         gen_sub("duplicates", duplicates, |t| t.pick(10_000, 300_000), check),
     ]
 }
@@ -448,8 +496,8 @@ fn subs() -> Vec<Sub> {
 pub const DEF: PropertyDef = PropertyDef {
     id: "C10",
     rule: "pairs (original, adjustment): exhaustive on a 2x4 grid (original sets <= 3, adjustment sets <= 2 with every src/dst), random on \
-           4x12 (thorough 6x20) grids with <= 8 + <= 6 tokens at distinct positions, and a duplicates class (same position twice on either \
-           side). Oracle: brute-force interval composition from the statement (stretch = start .. min(next start, end of line)); result \
+           4x12 (thorough 6x20) grids with <= 8 + <= 6 tokens at distinct positions, a duplicates class (same position twice on either \
+           side), and long_and_wide (60..400 original tokens over hundreds of lines, columns up to ~130000, 1..6 adjustment tokens). Oracle: brute-force interval composition from the statement (stretch = start .. min(next start, end of line)); result \
            compared as a multiset + sortedness + untouched sources/names/contents; payload (source, original position, name, range flag) \
            identified per token. Non-trivial = >= 2 + >= 2 tokens with an original stretch split by an adjustment boundary and an \
            adjustment stretch covering >= 2 originals",
